@@ -341,7 +341,7 @@ def make_prog(cfg):
                 compute_eigenvalue_outer_product=cfg.prediv, compute_method=cfg.method,
                 grad_worker_fraction=cfg.k / cfg.world, symmetry_aware=cfg.sym,
                 inv_dtype=(torch.bfloat16 if getattr(cfg, 'inv16', False) else (torch.float32 if getattr(cfg, 'inv32', False) else DT)),
-                factor_dtype=(torch.bfloat16 if getattr(cfg, 'fac16', False) else torch.float32 if getattr(cfg, 'fac32', False) else None),
+                factor_dtype=(torch.float16 if getattr(cfg, 'fac16', False) == 'f16' else torch.bfloat16 if getattr(cfg, 'fac16', False) else torch.float32 if getattr(cfg, 'fac32', False) else None),
                 update_factors_in_hook=cfg.hook,
                 grad_scaler=(None if getattr(cfg, 'union_of', None) is None
                              else (lambda: 1.0 / cfg.union_of)))
